@@ -196,3 +196,61 @@ parse_phase_rest = Contract(
     canaries=["intermediate_repr['doc'] == ''"],
 )
 CONTRACTS.append(parse_phase_rest)
+
+# ------------------------------------------------------------------------------------------- _parse_phase_numpydoc_and_google, numpydoc half (C01: the numpydoc parser)
+def _npd_case(name, params, returns=(), assume=()):
+    from doctrans.docstring_parsers import Style
+
+    return Case(name, {"intermediate_repr": ("dict", {"name": None, "type": ("lit", "static"), "doc": ("lit", ""), "params": ("dict", {}), "returns": None}),
+                       "scanned": ("dict", {"doc": "str", "Parameters\n----------": ("list", [("list", list(p)) for p in params] + [("list", [("lit", "")])]),
+                                            "Returns\n-------": ("list", [("list", list(r)) for r in returns])}),
+                       "default_search_announce": None, "infer_type": False, "word_wrap": False, "style": ("lit", Style.numpydoc),
+                       "arg_tokens": ("lit", ("Parameters\n----------",)), "return_tokens": ("lit", ("Returns\n-------",)), "emit_default_prop": True, "emit_default_doc": True},
+                assume=list(assume))
+
+
+_WSCH = "(' ', '\\t', '\\n', '\\r', '\\x0b', '\\x0c', '\\x1c', '\\x1d', '\\x1e', '\\x1f', '\\x85', '\\xa0')"
+_NPD_P = "old_scanned['Parameters\\n----------']"
+_NPD_X = "intermediate_repr['params']['x']"
+_NPD_R = "old_scanned['Returns\\n-------']"
+_NPD_RT = "intermediate_repr['returns']['return_type']"
+_NPD_T, _NPD_D = "scanned['Parameters\\n----------'][0][0][4:]", "scanned['Parameters\\n----------'][0][1][4:]"
+_NPD_L0, _NPD_L1 = "scanned['Parameters\\n----------'][0][0]", "scanned['Parameters\\n----------'][0][1]"
+_TIGHT = ["len(%s) > 4" % _NPD_L0, "len(%s) > 4" % _NPD_L1] + ["(%s in %s) == False" % (e, _WSCH) for e in (
+    _NPD_L0 + "[4]", _NPD_L0 + "[len(%s) - 1]" % _NPD_L0, _NPD_L1 + "[4]", _NPD_L1 + "[len(%s) - 1]" % _NPD_L1)]
+parse_phase_numpydoc = Contract(
+    "doctrans.docstring_parsers:_parse_phase_numpydoc_and_google",
+    properties=["C01"],
+    note="numpydoc style: scanned sections whose lines have a literal skeleton ('x : <type>', '    <prose>'; for the return entry '<type>', '    <prose>') and symbolic type / "
+         "prose text, as the scanner hands them over (with its closing [''] block); interpolate_defaults / _set_name_and_type are inlined, extract_default and needs_quoting by "
+         "contract; the nested helper keeps its flag in an attribute of the function object (modelled per path).  The Google half walks the characters of a line "
+         "(`next(idx for idx, ch in enumerate(line) if ch == ':')`): outside the verified subset, bounded rt",
+    cases=[_npd_case("one-param", [[_line("x : ", "str"), _line("    ", "str")]]),
+           _npd_case("one-param,tight", [[_line("x : ", "str"), _line("    ", "str")]], assume=_TIGHT),
+           _npd_case("return-only", [], [[_line("str"), _line("    ", "str")]])],
+    use_contract_for=["doctrans.defaults_utils:extract_default", "doctrans.defaults_utils:needs_quoting"],
+    ensures=[
+        Clause("NPD-names", "list(intermediate_repr['params'].keys()) == ['x']", when=["one-param", "one-param,tight"], note="C01: one parameter per 'name : type' block, named as written"),
+        Clause("NPD-no-params", "list(intermediate_repr['params'].keys()) == []", when=["return-only"], note="no parameter is invented"),
+        Clause("NPD-summary", "intermediate_repr['doc'] == old_scanned['doc']", note="the summary is the scanner's"),
+        Clause("NPD-typ", "('typ' in %s) == False or ('```' in %s[0][0]) or %s[0][0].endswith(', optional') or %s['typ'] == 'Optional[' + %s[0][0][4:] + ']' or %s['typ'] == %s[0][0][4:]"
+                          % (_NPD_X, _NPD_P, _NPD_P, _NPD_X, _NPD_P, _NPD_X, _NPD_P),
+               when=["one-param,tight"], note="C01: a type written without outer blanks comes back verbatim (prose that opens with 'Optional' wraps it in Optional[...]; "
+                                              "a trailing ', optional' is the numpydoc spelling of the same)"),
+        Clause("NPD-typ-kept", "'typ' in %s or ('default' in %s and typeis(%s['default'], 'str'))" % (_NPD_X, _NPD_X, _NPD_X), when=["one-param,tight"],
+               note="a type that was written is not dropped - except by _infer_default when the prose announces a code-quoted default (finding C-typdrop)"),
+        Clause("NPD-prose", "'doc' in %s and %s['doc'] == %s[0][1][4:]" % (_NPD_X, _NPD_X, _NPD_P), when=["one-param,tight"],
+               note="C01: prose without outer blanks is returned verbatim (default text kept)"),
+        Clause("NPD-prose-part", "('doc' in %s) == False or (%s['doc'] in %s[0][1])" % (_NPD_X, _NPD_X, _NPD_P), when=["one-param"],
+               note="in every case the prose is a part of the line: nothing is added to it"),
+        Clause("NPD-returns-none", "intermediate_repr['returns'] is None", when=["one-param", "one-param,tight"], note="no return entry is invented"),
+        Clause("NPD-return", "list(intermediate_repr['returns'].keys()) == ['return_type']", when=["return-only"], note="the Returns section becomes the one return entry"),
+        Clause("NPD-return-typ", "('typ' in %s) == False or %s[0][0].endswith(', optional') or %s['typ'] == 'Optional[' + %s[0][0] + ']' or %s['typ'] == %s[0][0]"
+                                 % (_NPD_RT, _NPD_R, _NPD_RT, _NPD_R, _NPD_RT, _NPD_R), when=["return-only"], note="C01: the return type is the first line of the section, verbatim"),
+        Clause("NPD-return-typ-kept", "'typ' in %s or ('default' in %s and typeis(%s['default'], 'str'))" % (_NPD_RT, _NPD_RT, _NPD_RT), when=["return-only"]),
+        Clause("NPD-return-prose-part", "('doc' in %s) == False or (%s['doc'] in %s[0][1])" % (_NPD_RT, _NPD_RT, _NPD_R), when=["return-only"],
+               note="the return prose is a part of the section's second line"),
+    ],
+    canaries=["intermediate_repr['doc'] == ''"],
+)
+CONTRACTS.append(parse_phase_numpydoc)
